@@ -48,6 +48,10 @@ const (
 	// that collection gets a new, unwritten version between the moment Flush pinned its version
 	// and the moment Flush writes it, while its contents stay the same.
 	CBTouchOther CBMask = 1 << 10
+	// CBReplaceOther: BeforeItemWrite (the middle of a Flush) calls SetCollection on ANOTHER
+	// existing name with the comparator it already has: that collection keeps all its items and
+	// gets a new handle while the Flush has its old version pinned.
+	CBReplaceOther CBMask = 1 << 11
 )
 
 func swapSum(key, val []byte) [4]byte {
@@ -180,8 +184,11 @@ type Env struct {
 	touching      bool
 	touchedStep   int
 	touches       int64
+	replaces      int64
 	// DstPre, when set, makes the next CopyTo copy into a file that already holds this store.
 	DstPre *DstPre
+	// LastCopyModel is the state the destination of the last successful CopyTo must hold.
+	LastCopyModel *model.State
 	// Loading is the model state a reload in progress (open, FlushRevert) is loading; nil otherwise.
 	Loading          *model.State
 	nilDefaultCmp    bool
@@ -464,6 +471,37 @@ func (e *Env) callbacks() gkvlite.StoreCallbacks {
 					kv := mc.Sorted()[0]
 					if oc.SetItem(&gkvlite.Item{Key: append([]byte{}, kv.Key...), Val: append(make([]byte, 0, len(kv.Val)), kv.Val...), Priority: kv.Prio}) == nil {
 						atomic.AddInt64(&e.touches, 1)
+					}
+					break
+				}
+				e.touching = false
+			}
+			if inner != nil {
+				return inner(c, i)
+			}
+			return i, nil
+		}
+	}
+	if m&CBReplaceOther != 0 {
+		inner := cb.BeforeItemWrite
+		cb.BeforeItemWrite = func(c *gkvlite.Collection, i *gkvlite.Item) (*gkvlite.Item, error) {
+			if !e.touching && e.S != nil && e.touchedStep != e.Step && e.Fault == nil && e.OpenPins() == 0 {
+				e.touching = true
+				e.touchedStep = e.Step
+				for _, n := range e.M.Live.Names() {
+					mc := e.M.Live.Colls[n]
+					if n == c.Name() || e.H[n] == nil {
+						continue
+					}
+					var nc *gkvlite.Collection
+					if mc.Cmp == model.CmpBytes || mc.Cmp == "" {
+						nc = e.S.SetCollection(n, nil)
+					} else {
+						nc = e.S.SetCollection(n, mc.Cmp.Func())
+					}
+					if nc != nil {
+						e.H[n] = nc
+						atomic.AddInt64(&e.replaces, 1)
 					}
 					break
 				}
@@ -1018,6 +1056,9 @@ func OpenCopyAndCompare(e *Env, b []byte, st *model.State, label string) {
 
 // AfterStep runs the always-on monitors.
 func (e *Env) AfterStep() {
+	if n := atomic.LoadInt64(&e.replaces); n > 0 {
+		e.Stats["other-collection-replaced-during-flush"] = n
+	}
 	if n := atomic.LoadInt64(&e.touches); n > 0 {
 		e.Stats["other-collection-touched-during-flush"] = n
 	}
